@@ -111,7 +111,7 @@ func Drive(in string, index int, w *ev.Writer, seed int64, tracePath string) err
 		return fmt.Errorf("NewConnection: %w", err)
 	}
 	client := liteclient.NewClient(c0, liteclient.OptionTimeout(timeout), liteclient.OptionWorkersPerConnection(sc.NConns))
-	if !sv.waitOpen(sc.NConns, 5*time.Second) {
+	if !sv.waitOpen(sc.NConns, 20*time.Second) {
 		return fmt.Errorf("only %d of %d connections came up", len(sv.openLinks()), sc.NConns)
 	}
 	time.Sleep(20 * time.Millisecond)
@@ -393,10 +393,16 @@ func (sv *server) run(sc *Script, timeout time.Duration) {
 		}
 		return open[(k-1)%len(open)]
 	}
+	recvBy := time.Now().Add(1500*time.Millisecond + time.Duration(slackMs())*time.Millisecond)
 	for _, st := range sc.Steps {
 		switch st.A {
 		case "recv":
-			sv.waitArrival(st.I, timeout+300*time.Millisecond)
+			// every scripted call is issued when the script starts: a query that has not arrived a little later never will
+			w := time.Until(recvBy)
+			if w < 20*time.Millisecond {
+				w = 20 * time.Millisecond
+			}
+			sv.waitArrival(st.I, w)
 		case "ans":
 			if a := sv.waitArrival(st.I, 50*time.Millisecond); a != nil {
 				if sv.send(a.l, "srv.ans", a.id, hash8(a.data), frameAnswer(a.id, a.data)) {
